@@ -20,6 +20,8 @@ Decided statically (DESIGN.md section 5, C19):
   R-C19-4  copying/moving Observer or Observable preserves invariant I: the special member is deleted, or
            user-provided and analysed (Observer: by the R-C19-1 interpreter; Observable: must not take over the
            source's observer list); an implicit memberwise copy is rejected.
+  R-C19-6  who may write the notification stamp: lastNotified of an existing Observable changes only through renew() in
+           notifyObservers (constructors initialise it); an assignment to it from another stamp is rejected.
   R-C19-5  coverage: every library function that names observee/observers/lastNotified/lastObserved, value or global
            is one of the analysed members.
 """
@@ -208,6 +210,56 @@ class ObsInterp(ObjInterp):
             return self.pval(tu.kids(e0)[0], st, fr)
         o = self.obj_of(e0, fr)
         return o if o in OBJS else None
+
+    def list_owner(self, e, st, fr):
+        """the observable ('P'/'Q') whose observer list the expression designates (X->observers, or a local reference to it)"""
+        tu = self.tu
+        e = tu.strip(e, casts=True)
+        if e is None:
+            return None
+        if e.get('kind') == 'MemberExpr' and tu.sd(e).get('d') == self.F.observers['id']:
+            ks = tu.kids(e)
+            x = self.observable_of(ks[0], st, fr) if ks else fr.env.get('this')
+            return x if x in OBJS else None
+        if e.get('kind') == 'DeclRefExpr':
+            return thaw(st).get('l:' + str(e.get('referencedDecl', {}).get('id')))
+        return None
+
+    def list_end(self, e, st, fr, which):
+        """owner of the list if e is <list>.begin()/end() (through iterator conversions)"""
+        e = unwrap_iter(self.tu, e)
+        if e is None or e.get('kind') != 'CXXMemberCallExpr':
+            return None
+        sd, obj, args = self.tu.call_parts(e)
+        if sd.get('q', '').split('::')[-1] not in which or obj is None:
+            return None
+        return self.list_owner(obj, st, fr)
+
+    def list_use_ok(self, n, fr):
+        """a mention of an observer list inside an interpreted member is understood when it initialises a local reference or
+        is the object of begin()/end() feeding a modelled algorithm (std::replace)"""
+        tu = self.tu
+        p = tu.par(n)
+        hops = 0
+        while p is not None and p.get('kind') in ('ImplicitCastExpr', 'ParenExpr') and hops < 4:
+            p = tu.par(p)
+            hops += 1
+        if p is None:
+            return False
+        if p.get('kind') == 'VarDecl':
+            return '&' in p.get('type', {}).get('qualType', '')
+        if p.get('kind') == 'MemberExpr' and p.get('name') in ('begin', 'end'):
+            q = tu.par(p)
+            hops = 0
+            while q is not None and hops < 12:
+                if q.get('kind') == 'CallExpr':
+                    return tu.sd(q).get('q') == 'std::replace'
+                if q.get('kind') not in ('CXXMemberCallExpr', 'MaterializeTemporaryExpr', 'ImplicitCastExpr', 'CXXConstructExpr',
+                                         'CXXBindTemporaryExpr', 'ExprWithCleanups', 'CXXFunctionalCastExpr'):
+                    return False
+                q = tu.par(q)
+                hops += 1
+        return False
 
     def stamp_of(self, e, st, fr):
         """('O', observer, renewed-before-this-read) for <observer>.lastObserved, ('N', observable) for
@@ -426,7 +478,12 @@ class ObsInterp(ObjInterp):
         k = n.get('kind')
         d = thaw(st)
         if k == 'MemberExpr' and tu.sd(n).get('d') == self.F.observers['id']:
-            self.und('an interpreted member accesses the observer list directly at %s' % tu.loc(n))
+            if not self.list_use_ok(n, fr):
+                self.und('an interpreted member accesses the observer list directly at %s' % tu.loc(n))
+            return [st]
+        if k == 'DeclRefExpr' and ('l:' + str(n.get('referencedDecl', {}).get('id'))) in d:
+            if not self.list_use_ok(n, fr):
+                self.und('an interpreted member uses a reference to the observer list at %s in a way the analysis does not model' % tu.loc(n))
             return [st]
         if k == 'MemberExpr' and n.get('isArrow'):
             ks = tu.kids(n)
@@ -474,6 +531,8 @@ class ObsInterp(ObjInterp):
                     d['b:' + str(v['id'])] = self.eval_bool(init, st, fr)
                 elif ptr_to(ict, OBSV) or ptr_to(tu.sd(tu.strip(init, casts=True)).get('ct'), OBSV):
                     d['v:' + str(v['id'])] = self.pval(init, st, fr)
+                elif '&' in vt and self.list_owner(init, st, fr) is not None:
+                    d['l:' + str(v['id'])] = self.list_owner(init, st, fr)       # reference to the observer list of that observable
                 elif self.stamp_of(init, st, fr) is not None and base_type(vt) != TS and '&' not in vt:
                     d['s:' + str(v['id'])] = self.stamp_of(init, st, fr)      # integer snapshot of a stamp
                 else:
@@ -512,7 +571,29 @@ class ObsInterp(ObjInterp):
                     self.report('renews-notification', 'an Observer member renews the observable\'s notification stamp: every other '
                                 'observer sees a notification that never happened', n, fr, st)
                 return [st]
+            if q == TS + '::operator=' and obj is not None and args:
+                so, sa = self.stamp_of(obj, st, fr), self.stamp_of(args[0], st, fr)
+                if so and so[0] == 'N':
+                    self.report('notification-stamp-overwritten', 'an Observer member assigns to the observable\'s notification stamp: its '
+                                'observers compare against a stamp that is not the time of a notification', n, fr, st)
+                elif so and so[0] == 'O' and sa and sa[0] == 'N':
+                    self.und('lastObserved is assigned from the notification stamp at %s (catch-up by assignment is not modelled)' % tu.loc(n))
+                return [st]
             if sd.get('rec') == TS or q in ('std::move', 'std::forward', 'std::addressof'):
+                return [st]
+            if q == 'std::replace' and len(args) == 4:
+                # std::replace(L.begin(), L.end(), &a, &b) on an observer list: every entry for a becomes an entry for b
+                xa, xb = self.list_end(args[0], st, fr, ('begin',)), self.list_end(args[1], st, fr, ('end',))
+                pa, pb = self.pval(args[2], st, fr), self.pval(args[3], st, fr)
+                if xa in OBJS and xa == xb and isinstance(pa, tuple) and isinstance(pb, tuple) and pa[0] == pb[0] == 'addr' \
+                        and pa[1] and pb[1] and pa[1] not in OBJS and pb[1] not in OBJS:
+                    d = self.ev(st, 'replace(%s: %s->%s)' % (xa, pa[1], pb[1]))
+                    ra, rb = list(d.get('r:' + pa[1], ())), list(d.get('r:' + pb[1], ()))
+                    moved = [y for y in ra if y == xa]
+                    d['r:' + pa[1]] = tuple(sorted(y for y in ra if y != xa))
+                    d['r:' + pb[1]] = tuple(sorted(rb + moved)) if pa[1] != pb[1] else tuple(sorted(ra))
+                    return [freeze(d)]
+                self.und('std::replace on an observer list with operands the analysis cannot identify at %s' % tu.loc(n))
                 return [st]
             callee = tu.callee_fn(n)
             if callee is not None and self.is_own_fn(callee) and tu.cfg(callee) is not None:
@@ -1165,6 +1246,53 @@ def check_observable(ctx, tu, F, analysed):
     return n
 
 
+def check_stamp_writers(ctx, tu, F, notify_fns):
+    """R-C19-6: the notification stamp of an existing Observable changes only through renew() in notifyObservers; every other
+    member may at most read it.  (Constructors initialise the stamp of a new object, which has no observers yet.)"""
+    R6 = 'R-C19-6'
+    ctx.describe(R6, 'lastNotified of an existing Observable is written only by renew() in notifyObservers (constructors may initialise it): '
+                     'wasNotified() compares against the time of the last notification of *its own* observable')
+    n = 0
+    for f in sorted(tu.functions.values(), key=lambda x: (x['f'], x['l'])):
+        if f['dep'] or tu.body(f) is None or tu.cfg(f) is None:
+            continue
+        file = tu.fn_file(f)
+        if 'drivers/' in file or file.startswith('verif:'):
+            continue
+        writes, renews, reads = [], [], 0
+        for x in tu.walk(tu.body(f)):
+            if not x.get('id'):
+                continue
+            if x.get('kind') == 'MemberExpr' and tu.sd(x).get('d') == F.last_notified['id']:
+                reads += 1
+            if x.get('kind') in CALLS and tu.sd(x).get('rec') == TS:
+                sd, obj, args = tu.call_parts(x)
+                o = tu.strip(obj, casts=True) if obj is not None else None
+                if o is None or o.get('kind') != 'MemberExpr' or tu.sd(o).get('d') != F.last_notified['id']:
+                    continue
+                name = sd.get('q', '').split('::')[-1]
+                if name == 'operator=':
+                    writes.append(x)
+                elif sd.get('q') == RENEW:
+                    renews.append(x)
+        if not reads:
+            continue
+        n += 1
+        inst = fn_name(f)
+        if f.get('ctor'):
+            ctx.ok(R6, inst, 'constructor: initialises the stamp of a new observable', tu.fn_loc(f), nontrivial=False)
+        elif writes:
+            ctx.violation(R6, inst, '%s assigns to lastNotified (%s): afterwards the observers of this observable compare against a stamp that is '
+                          'not the time of its own last notification - an observer reports a notification that never happened, or a pending '
+                          'notification disappears' % (f['q'].split('::')[-1], tu.show(writes[0])), tu.loc(writes[0]),
+                          key='%s|%s|%s|notification-stamp-overwritten' % (R6, file, inst))
+        elif renews and f['id'] not in notify_fns:
+            ctx.undecided(R6, inst, 'renews lastNotified outside notifyObservers', tu.loc(renews[0]))
+        else:
+            ctx.ok(R6, inst, 'reads the notification stamp only' if not renews else 'renews the stamp (notification)', tu.fn_loc(f))
+    return n
+
+
 def on_every_path(g, stmt_id):
     pos = g.where(stmt_id)
     if pos is None:
@@ -1520,6 +1648,15 @@ def check_timestamp(ctx, tu_src, tu_drv, lib_tus, analysed_names):
                 problems.append(('non-atomic-update', 'global is written with %s() instead of one atomic read-modify-write: two threads can '
                                  'draw the same stamp' % writes[0][1][1]))
                 continue
+            cache = cached_source(tu_src, fnext, ret)
+            if cache and (len(rmw) != 1 or ret['id'] != rmw[0][0]['id']):
+                problems.append(('cached-values', 'nextValue returns a value served from `%s`, a variable that outlives the call (thread-local / '
+                                 'static cursor), %s: values are handed out from per-thread reservations instead of each being the result of '
+                                 'its own atomic increment of global, so a stamp taken later on another thread can be numerically smaller than '
+                                 'an earlier one (wasNotified compares stamps across threads: notifications are lost or reported repeatedly)'
+                                 % (cache, 'without touching the global counter on this path' if not rmw else
+                                    'not the result of the increment of global performed on this path')))
+                continue
             if len(rmw) != 1 or rmw[0][1][1] < 1:
                 problems.append(('not-one-rmw', 'nextValue must advance global by exactly one atomic increment per call; this path performs: %s'
                                  % ([a[1] for x, a in rmw] or 'none')))
@@ -1632,6 +1769,25 @@ def check_timestamp(ctx, tu_src, tu_drv, lib_tus, analysed_names):
     if not bad:
         ctx.ok(R3, 'who-writes TimeStamp::global', 'only nextValue() modifies global in %d library/driver units' % (2 + len(lib_tus)), SRC_T)
     return n
+
+
+def cached_source(t, f, ret):
+    """name of a variable with static or thread storage duration (not a local, not a parameter, not the global counter itself)
+    that the returned expression reads, else None"""
+    if ret is None:
+        return None
+    local = {x['id'] for x in t.walk(t.body(f)) if x.get('kind') in ('VarDecl', 'ParmVarDecl') and x.get('id')}
+    local |= {p['id'] for p in f['params']}
+    for x in t.walk(ret):
+        if x.get('kind') == 'DeclRefExpr' and x.get('referencedDecl', {}).get('kind') == 'VarDecl':
+            did = x['referencedDecl'].get('id')
+            if t.sd(x).get('q') == GLOBAL:
+                continue
+            vd = t.node(did)
+            static_local = vd is not None and (vd.get('storageClass') == 'static' or vd.get('tls'))
+            if did not in local or static_local:
+                return x['referencedDecl'].get('name', '?')
+    return None
 
 
 def refs_global(t, f):
@@ -1884,6 +2040,10 @@ def run(ctx):
         analysed = set()
         n1, n2, n4a = check_observer(ctx, tu, F, analysed, [tu_src] + list(lib_tus))
         n1 += check_observable(ctx, tu, F, analysed)
+        nfs = {f['id'] for f in tu.fns(q=NOTIFY, dep=False)}
+        nfs |= {follow_forwarding(tu, f)['id'] for f in tu.fns(q=NOTIFY, dep=False) if tu.cfg(f) is not None}
+        n6 = check_stamp_writers(ctx, tu, F, nfs)
+        ctx.floor('R-C19-6', n6, 2, 'notifyObservers and wasNotified name lastNotified in their bodies')
         n4 = check_special(ctx, tu, F, analysed)
         n5 = check_coverage(ctx, tu, F, analysed, [tu_src] + list(lib_tus))
         ctx.floor('R-C19-1', n1, 7, 'Observer ctor (1) + dtor (2 scenarios) + 4 Observable members')
